@@ -30,7 +30,8 @@ from verifkit.util import scratch, write_file
 LEVEL = "model_checking"
 
 KINDS = ("gen", "agen", "coro")
-ALL_OPS = ["next", "send7", "tE1", "tSI", "tSA", "tGE", "close"]
+ALL_OPS = ["next", "send7", "send0", "sendE", "tE1", "tSI", "tSA", "tGE", "close"]
+SEND = {"next": None, "send7": 7, "send0": 0, "sendE": ""}       # send0 / sendE: falsy but not None
 
 
 # =========================================================================== concretiser
@@ -92,7 +93,7 @@ def _stmt(kind, tok):
         if kind == "agen":
             return "return"          # 'return <value>' is a syntax error in an asynchronous generator
         return {"R1": "return 1", "RS": "return 's'", "RN": "return"}[tok]
-    return {"LA": "log.append('a')", "LB": "log.append('b')", "LF": "log.append('f')",
+    return {"LX": "log.append(x)", "LA": "log.append('a')", "LB": "log.append('b')", "LF": "log.append('f')",
             "XE": "raise E1('b')", "XS": "raise StopIteration(3)", "XA": "raise StopAsyncIteration()",
             "XG": "raise GeneratorExit()", "RR": "raise"}[tok]
 
@@ -173,7 +174,7 @@ def tok(v):
     if isinstance(v, int):
         return str(v)
     if isinstance(v, str):
-        return v
+        return v if v else "''"
     return "?" + repr(v)[:60]
 
 
@@ -221,10 +222,8 @@ def _run_ops(kind, fn, ops):
             break
         try:
             if kind == "agen":
-                if op == "next":
-                    aw = obj.asend(None)
-                elif op == "send7":
-                    aw = obj.asend(7)
+                if op in SEND:
+                    aw = obj.asend(SEND[op])
                 elif op == "close":
                     aw = obj.aclose()
                 else:
@@ -238,10 +237,8 @@ def _run_ops(kind, fn, ops):
                 finally:
                     aw = None
             else:
-                if op == "next":
-                    o = "yield||" + tok(obj.send(None))
-                elif op == "send7":
-                    o = "yield||" + tok(obj.send(7))
+                if op in SEND:
+                    o = "yield||" + tok(obj.send(SEND[op]))
                 elif op == "close":
                     obj.close()
                     o = "ok||N"
@@ -254,7 +251,7 @@ def _run_ops(kind, fn, ops):
         except BaseException as e:      # noqa
             o = _exc_obs(e)
         obs.append(o)
-    log = list(log)          # snapshot: dropping a still suspended object below may run more of the body
+    log = [tok(v) for v in log]     # snapshot (dropping a still suspended object below may run more of the body)
     obj = None
     return obs, log
 
@@ -441,11 +438,15 @@ G_TRYQ = dict(pre=[], premax=0, blk=["RX", "YX"], blkmax=2, hc=["", "E1", "Gener
               ops=["next", "send7", "tE1", "tGE", "close"], maxops=3, postmax=1)
 
 
+# bodies that observe what they receive (yield it back, log it) under None / truthy / falsy sends
+G_SEND = dict(pre=["RX", "YX", "LX", "Y1"], premax=3, blkmax=0,
+              ops=["next", "send7", "send0", "sendE", "tE1"], maxops=3, postmax=1)
 G_MUT = dict(pre=[], premax=0, blk=["RX"], blkmax=1, hc=["", "E1", "GeneratorExit"],
              hblk=["Y2", "R1", "XE"], hblkmax=1, fin=["LF"], finmax=1, post=["Y1", "XE", "R1"], postlen=1,
              ops=["next", "send7", "tE1", "tSA", "tGE", "close"], maxops=3, postmax=1)
 
-MUTANTS = {"agen": ["merge_else", "send_after_throw", "no_aclose"], "gen": ["lose_return"], "coro": ["no_check"]}
+MUTANTS = {"agen": ["merge_else", "send_after_throw", "no_aclose", "falsy_is_none"], "gen": ["lose_return"],
+           "coro": ["no_check"]}
 
 TRACE_CFG = """SPECIFICATION TSpec
 CONSTANTS
@@ -474,7 +475,7 @@ CHECK_DEADLOCK FALSE
 
 
 # =========================================================================== compiler of nested bodies (R3)
-_INS = {"Y1": ("Y", "1", ""), "Y2": ("Y", "2", ""), "RX": ("RX", "2", ""), "YX": ("YX", "", ""),
+_INS = {"LX": ("LX", "", ""), "Y1": ("Y", "1", ""), "Y2": ("Y", "2", ""), "RX": ("RX", "2", ""), "YX": ("YX", "", ""),
         "LA": ("L", "a", ""), "LB": ("L", "b", ""), "LF": ("L", "f", ""),
         "XE": ("X", "E1", "b"), "XS": ("X", "StopIteration", "3"), "XA": ("X", "StopAsyncIteration", ""),
         "XG": ("X", "GeneratorExit", ""), "RR": ("RERAISE", "", "")}
@@ -539,7 +540,7 @@ def compile_tree(tree):
     return code, hs
 
 
-SIMPLE = ["Y1", "Y2", "RX", "YX", "LA", "LB", "R1", "RS", "XE", "XS", "XA"]
+SIMPLE = ["Y1", "Y2", "RX", "YX", "LA", "LX", "LB", "R1", "RS", "XE", "XS", "XA"]
 HCS = ["E1", "GeneratorExit", "BaseException", "Exception", "StopIteration", "StopAsyncIteration"]
 
 
@@ -585,7 +586,7 @@ def trace_record(pool, d, kind, seed, nbodies, nseqs, seqlen):
         for _ in range(nseqs):
             k = rnd.randint(2, seqlen)
             # mostly plain iteration, sprinkled with sends / throws / closes
-            seqs.append([rnd.choice(alphabet) if rnd.random() < 0.55 else rnd.choice(["next", "send7"])
+            seqs.append([rnd.choice(alphabet) if rnd.random() < 0.55 else rnd.choice(["next", "next", "send7", "send0", "sendE"])
                          for _ in range(k)] + ["del"])
         jobs.append((kind, b, tree, seqs))
     res = pool.map(_record_group, jobs, chunksize=max(1, len(jobs) // 64))
@@ -697,14 +698,17 @@ def _design_jobs(d, tier):
         jobs.append((("exhibit", kind, wrap_of(kind)),
                      make_cfg(d, f"ex_{kind}", kind, wrap_of(kind), g, keep=True, emit=False, invs=["LockStep"]), {}))
         for m in MUTANTS[kind]:
+            gm = dict(G_SEND, ops=kind_ops(kind, G_SEND["ops"])) if m == "falsy_is_none" else g
             jobs.append((("mutant", kind, m),
-                         make_cfg(d, f"mut_{kind}_{m}", kind, m, g, keep=True, emit=False, invs=["LockStepModF7"]), {}))
+                         make_cfg(d, f"mut_{kind}_{m}", kind, m, gm, keep=True, emit=False, invs=["LockStepModF7"]), {}))
     g = dict(G_TRYQ, ops=kind_ops("agen", ALL_OPS))
     jobs.append((("fixed", "agen", "fixed"),
                  make_cfg(d, "fixed_agen", "agen", "fixed", g, keep=False, emit=False, invs=["LockStep", "NoOrphan"]), {}))
     for kind in KINDS:
         if tier != "quick":
             deep = dict(G_TRY, maxops=6, postmax=2)
+            if kind == "agen":
+                deep["ops"] = deep["ops"] + ["send0"]
         elif kind == "agen":          # the hand-written loop gets the larger scope in the quick tier
             deep = dict(G_TRY, maxops=4)
         else:
@@ -753,10 +757,11 @@ def _design_judge(rep, jobs, results):
 
 G_STRAIGHT4 = dict(G_STRAIGHT, pre=G_STRAIGHT["pre"] + ["XA", "XG"], maxops=4)
 G_TRY2 = dict(G_TRYQ, hblk=["Y2", "LB", "RN", "RR", "XE", "XS"], hblkmax=2, post=["Y1", "XE"],
-              ops=["next", "send7", "tE1", "tGE", "close"])
+              ops=["next", "send7", "send0", "tE1", "tGE", "close"])
+G_SEND4 = dict(G_SEND, pre=G_SEND["pre"] + ["R1"], ops=G_SEND["ops"] + ["close"], maxops=4)
 TABLES = {
-    "quick": [("straight", G_STRAIGHT), ("try", G_TRYQ)],
-    "thorough": [("straight", G_STRAIGHT4), ("try", G_TRY), ("try2", G_TRY2)],
+    "quick": [("straight", G_STRAIGHT), ("try", G_TRYQ), ("send", G_SEND)],
+    "thorough": [("straight", G_STRAIGHT4), ("try", G_TRY), ("try2", G_TRY2), ("send", G_SEND4)],
 }
 
 
@@ -813,7 +818,8 @@ def _table_runs(rep, d, tier, pool):
         rep.machinery("the specification's account of CPython disagrees with the undecorated objects "
                       "(no verdict about beartype possible):\n  " + "\n  ".join(cmp.machinery))
     for kind, st in stats.items():
-        missing = [o for o in kind_ops(kind, TABLES[tier][0][1]["ops"]) + ["del"] if not st["ops"].get(o)]
+        allops = sorted({o for _, g0 in TABLES[tier] for o in kind_ops(kind, g0["ops"])})
+        missing = [o for o in allops + ["del"] if not st["ops"].get(o)]
         missing += [k for k in ("yield", "stop", "raise", "ok") if not st["obs"].get(k)]
         missing += [k for k in ("f7", "excl", "log") if not st[k] and not (k == "f7" and wrap_of(kind) == "fixed")]
         if missing and not model_broken:
